@@ -249,3 +249,47 @@ def listDir (md5 : Bytes → Bytes) (bk : Bkt) (p : Prefix) : ObjectList :=
         truncated := false, next := [] }
 
 end GFS.Model.FsB
+
+/-! ### SingleBucketBackend (single.go): one fixed bucket whose directory is the root of the file
+    system it was given; the object code is a copy of the multi-bucket backend's with the bucket
+    test `bucketName != db.name` in front -/
+namespace GFS.Model.FsB.Single
+open GFS GFS.Model GFS.Model.FsB
+
+/-- the store of a single-bucket backend named `name` -/
+def init (name : Bytes) : FsS := ⟨[(name, ⟨Fs.Tree.empty, []⟩)]⟩
+
+def bucketExists (name b : Bytes) : Bool := b == name
+def listBuckets (name : Bytes) : List Bytes := [name]
+/-- `CreateBucket` / `DeleteBucket` cannot be implemented by this backend -/
+def createBucket (s : FsS) : FsS × Res Unit := (s, .err .NotImplemented)
+def deleteBucket (s : FsS) : FsS × Res Unit := (s, .err .NotImplemented)
+
+/-- `ForceDeleteBucket`: every object is deleted (with its metadata), the root stays -/
+def forceDeleteBucket (name : Bytes) (s : FsS) (b : Bytes) : FsS × Res Unit :=
+  if b != name then (s, .err .NoSuchBucket) else (⟨SMap.insert s.buckets name ⟨Fs.Tree.empty, []⟩⟩, .ok ())
+
+def getObject (md5 : Bytes → Bytes) (name : Bytes) (s : FsS) (b k : Bytes) : Res FObj :=
+  if b != name then .err .NoSuchBucket else FsB.getObject md5 s b k
+
+def putObject (md5 : Bytes → Bytes) (name : Bytes) (s : FsS) (b k : Bytes) (md : Meta) (body : Bytes) : FsS × Res Unit :=
+  if b != name then (s, .err .NoSuchBucket) else FsB.putObject md5 s b k md body
+
+def deleteObject (name : Bytes) (s : FsS) (b k : Bytes) : FsS × Res Unit :=
+  if b != name then (s, .err .NoSuchBucket) else FsB.deleteObject s b k
+
+def deleteMulti (name : Bytes) (s : FsS) (b : Bytes) (ks : List Bytes) : FsS × Res (List Bytes × List Bytes) :=
+  if b != name then (s, .err .NoSuchBucket) else FsB.deleteMulti s b ks
+
+/-- `CopyObject` = the helper over this backend's own GetObject and PutObject -/
+def copyObject (md5 : Bytes → Bytes) (name : Bytes) (s : FsS) (sb sk dstB dstK : Bytes) (md : Meta) : FsS × Res Bytes :=
+  match getObject md5 name s sb sk with
+  | .err c => (s, .err c)
+  | .panic x => (s, .panic x)
+  | .ok src =>
+    match putObject md5 name s dstB dstK md src.body with
+    | (s', .ok _) => (s', .ok src.hash)
+    | (s', .err c) => (s', .err c)
+    | (s', .panic x) => (s', .panic x)
+
+end GFS.Model.FsB.Single
